@@ -1,6 +1,6 @@
 """Trigger predicates of the open C02 findings (decide from the case; confirm by removing the feature).
 
-No C02 finding is open.  The five defects this check found (implicit intersection fused after an edit, operator
+One C02 finding is open (F-C02-glued-nested-edit, found after /repo was frozen).  The five defects this check found (implicit intersection fused after an edit, operator
 setter without parentheses / UnboundLocalError, interpolate shortcut in a geometry, colon in the continuation
 indent, repeat shortcut after a tree) were repaired in /repo (findings/C02.fixed.json); their replays are regression
 cases in corpus/C02.  The predicates below stay as the pattern for a new entry (decide from the case, confirm by
@@ -49,3 +49,26 @@ def C02_repeat_shortcut_in_tree(case, params):
     expanded = dict(c, base_lines=c["base_read_lines"])
     expanded.pop("base_read_lines")
     return C02.judge(expanded, C02.observe(expanded)) is None
+
+
+def _has_at(p):
+    if p is None or p[0] in ("p", "n", "c", "b"):
+        return False
+    if p[0] == "AT":
+        return True
+    return any(_has_at(x) for x in (p[3:] if p[0] == "AT" else p[1:]))
+
+
+def C02_glued_nested_edit(case, params):
+    """F-C02-glued-nested-edit: an implicit intersection without a blank (')3', ')(' , '1(' , ')#') whose side is
+    edited in place BELOW that node.  Attributed when the text that was read has such a glued pair, the program has an
+    in-place edit of a sub-object (AT), and the very same case with the geometry text normalised to single blanks
+    between all tokens passes the oracle and agrees with the model."""
+    import re
+    c = case.get("case") or {}
+    lines = c.get("base_lines")
+    if not lines or not _has_at(c.get("prog")):
+        return False
+    if not re.search(r"\)[+-]?\d|\)\(|\d\(|[\d)]#", " ".join(l.split("$")[0] for l in lines)):
+        return False
+    return passes_on_one_line(case)
